@@ -169,6 +169,14 @@ def axiom_audit(modules, namespaces):
     return thms, bad
 
 
+def required_theorems(pid):
+    import json
+    p = os.path.join(VERIF, "tools", "required_theorems.json")
+    if not os.path.exists(p):
+        return []
+    return json.load(open(p)).get(pid, [])
+
+
 def leanchecker(modules):
     with Lock("lake"):
         r = run(["lake", "env", "leanchecker"] + modules, cwd=LEAN)
@@ -336,6 +344,11 @@ def check(pid, tier, replay=None):
             broken += ["axiom-audit: " + b for b in bad]
         if not thms:
             broken.append("axiom-audit: no theorem found in " + ",".join(cfg["modules"]))
+        # the property theorems this check claims must all still be there (a deleted or renamed
+        # theorem is a proof obligation that no longer checks)
+        for name in required_theorems(pid):
+            if name not in thms:
+                broken.append("required theorem missing: " + name)
     checker_note = ""
     if tier == "thorough" and proofs_ok:
         ok_lc, out_lc = leanchecker(cfg["modules"])
